@@ -278,11 +278,7 @@ impl<R: RuleType> Error<R> {
             sl.to_owned().replace(&['\r', '\n'][..], "")
         };
         let ll = line_iter.last();
-        let continued_line = if visualize_ws {
-            ll.map(str::to_owned)
-        } else {
-            ll.map(visualize_whitespace)
-        };
+        let continued_line = ll.map(visualize_whitespace);
 
         Error {
             variant,
